@@ -28,7 +28,7 @@ func runConcurrent(r *lib.Run) {
 		}
 		for s := 0; s < nAR/2; s++ {
 			sh := genShape(rng, 5+rng.IntN(9)) // 19..60 files
-			probe := build(sh, "probe", rng, -1)
+			probe := build(sh, "probe", rng, -1, nil)
 			ts := targets(probe, rng)
 			if len(ts) == 0 {
 				continue
@@ -45,8 +45,8 @@ func runConcurrent(r *lib.Run) {
 				p := ts[rng.IntN(len(ts))]
 				p.name = pn
 				tag := fmt.Sprintf("C06-s%d-c-%s-%d-%d", r.Seed, storage, s, k)
-				in := build(sh, tag, rng, -1)
-				pl := place(in, p, true, rng)
+				in := build(sh, tag, rng, -1, nil)
+				pl := place(in, p, true, 0, rng)
 				ci := &caseInfo{ID: tag, Cfg: w.cfg, Shape: sh.label, Plan: "concurrent-" + pn, Target: p.label, Key: in.key, Refs: in.refs, Upload: uploadPaths[(s+k)%3], Blobs: "batch"}
 				var local [][]byte
 				seen := map[string]bool{}
